@@ -142,6 +142,8 @@ func C02(c *Ctx) {
 
 	c.rootRule("C02-7")
 	c.methodIterationRule("C02-8")
+	c.nodeAccessorRule("C02-10")
+	c.namingRule("C02-9", "/pkg/builder/model", "/pkg/builder", "/pkg/generator/model", "/pkg/generator")
 }
 
 // rootRule: resolveExpr is always started at the root of the source tree (shared by C02 and C06).
